@@ -345,10 +345,11 @@ def scaling_case(name, build_fn, sizes, acc, ctx):
     ratio = ts[2] / max(ts[1], 1e-3)
     grow = len(datas[2]) / len(datas[1])
     acc.case(nt_key=("scaling", name), classes=["scaling", f"scaling:{name}"], sample={"scaling": name, "bytes": [len(d) for d in datas], "cpu_s": [round(t, 3) for t in ts]}, sample_key=f"scaling/{name}")
-    if ts[2] > 2.0 and ratio > 2.6 * grow:
+    if ts[2] > 0.75 and ratio > 2.6 * grow:
         # confirm: repeat the two larger measurements (same process, warmed up) and require the excess again
         t1b, t2b = measure(datas[1]), measure(datas[2])
-        if t2b > 2.0 and t2b / max(t1b, 1e-3) > 2.6 * grow:
+        t1c, t2c = measure(datas[1]), measure(datas[2])
+        if min(t2b, t2c) > 0.75 and min(t2b / max(t1b, 1e-3), t2c / max(t1c, 1e-3)) > 2.6 * grow:
             raise Violation(f"{name}: parsing {len(datas[1])} bytes takes {ts[1]:.2f}/{t1b:.2f} s CPU, {len(datas[2])} bytes ({grow:.1f}x) takes {ts[2]:.2f}/{t2b:.2f} s ({ratio:.1f}x): "
                             "time is not proportional to the input size", "about linear growth", bucket=f"scaling:{name}")
         acc.note("inconclusive_resource")
@@ -565,10 +566,18 @@ def replay(ctx, check, case):
     _limit_memory()
     acc = Acc()
     if "family" in case:
+        if boot.guard_state() is False:
+            # growth is an asymptotic property of the parser: measure it with the call-logging fast path on (with per-call stack
+            # inspection the linear term is ~10x larger and hides the quadratic one at affordable sizes) - in a fresh process
+            code = ("import sys; sys.path.insert(0, %r); from vf import boot; boot.import_sut(True); from vf.checks import c17; from vf.run import Ctx; "
+                    "r = c17.replay(Ctx(scratch=%r), 'scaling', {'family': %r}); print('RESULT', r)" % (boot.VERIF_DIR, ctx.scratch, case["family"]))
+            r = subprocess.run([sys.executable, "-c", code], capture_output=True, text=True, timeout=900, env=dict(os.environ, VERIF_REPO=boot.REPO, SUIT_GENERATOR_VERIF="1"))
+            line = [x for x in r.stdout.splitlines() if x.startswith("RESULT")]
+            if not line:
+                raise boot.HarnessError(f"scaling replay failed: {r.stderr[-300:]}")
+            return [] if line[-1].strip() == "RESULT []" else [line[-1][7:]]
         for name, fn, sizes in scaling_families():
             if name == case["family"]:
-                if boot.guard_state() is False:
-                    sizes = tuple(x // 4 for x in sizes)  # call logging on: ~10x slower per node, a quarter of the size shows the same growth
                 try:
                     scaling_case(name, fn, sizes, acc, ctx)
                 except Violation as v:
